@@ -134,6 +134,8 @@ for _k in ("RW", "MH", "IWLS"):
 from contracts.c03 import liesel_unit  # noqa: E402
 
 liesel_unit("hier", uid="C05.proposed_state_depends_on_proposal_and_state_only", prop="C05")
+# ... and it is the COMPLETE updated state: also derived quantities that feed no distribution (a leaf prediction node) belong to "the state updated with the proposal"
+liesel_unit("diamond", uid="C05.accepted_state_is_the_fully_updated_state", prop="C05")
 
 # "on rejection the returned state equals the input state exactly": mh_step builds the proposed state with model.update_state(proposal, state)
 # BEFORE it decides - that call must leave the input state (incl. mutable containers it holds) untouched (same harness as C03.<Interface>)
